@@ -360,6 +360,10 @@ def check(ctx):
     from . import c08, c09
     c07_ = __import__('sa.props.c07', fromlist=['x'])
     c07_.r_layout_tables(ctx, 'R01.11', c07_.LAYOUT_CONSTRUCT, 20)
+    from . import c04 as c04_
+    from .. import guards as guards_
+    c04_.group_rule(ctx, 'R01.13', guards_.ACCESSORS, 'structural accessors (children of tree nodes in order, type deconstructors, variant-to-variant tables)', 40)
+    c04_.group_rule(ctx, 'R01.12', c04_.PARSERS, 'parse-tree construction (every PestParse::parse): the compiled program is the program that was written', 30)
     c08.r_equations(ctx)
     c08.r_wiring(ctx)
     c09.r_equations(ctx)
